@@ -23,7 +23,6 @@ EnvVal(nm, k) ==
     [] k = 6 -> HostFn(nm, 1) [] k = 7 -> HostFn(nm, 0) [] k = 8 -> HostObj(nm) [] k = 9 -> Bool(FALSE) [] OTHER -> Unbound
 NEnv == 10
 EnvOf(free, ks) == [nm \in {free[i] : i \in 1..Len(free)} |-> EnvVal(nm, ks[CHOOSE i \in 1..Len(free) : free[i] = nm])]
-AllKs(n) == [1..n -> 1..NEnv]
 
 \* V8's record of an observation in the vocabulary of JsCore.Run
 V8Obs(o) == [calls |-> o.calls, globals |-> {o.globals[i] : i \in 1..Len(o.globals)}, comp |-> o.comp]
@@ -44,12 +43,22 @@ V8Agrees(e, w) ==
   IN /\ (OutOfModel(ra) \/ SameAsV8(ra, w.a))
      /\ (OutOfModel(ra) \/ OutOfModel(rb) \/ w.b.comp[1] = "syntax" \/ SameAsV8(rb, w.b))
 
+\* the environment space of a line: the names in e.vary (at most three) range over all NEnv values, the sink "out" is the
+\* logging host function returning undefined, every other free name stays undeclared
+InVary(e, nm) == \E j \in 1..Len(e.vary) : e.vary[j] = nm
+KsFor(e) == {[i \in 1..Len(e.free) |->
+                IF e.free[i] = "out" THEN 7
+                ELSE IF InVary(e, e.free[i]) THEN v[CHOOSE j \in 1..Len(e.vary) : e.vary[j] = e.free[i]]
+                ELSE 10]
+             : v \in [1..Len(e.vary) -> 1..NEnv]}
+
 LineOK(e) ==
-  LET res == [ks \in AllKs(Len(e.free)) |-> Judged(e, ks)]
-      bad == {ks \in AllKs(Len(e.free)) : res[ks] = "bad"}
-      nok == Cardinality({ks \in AllKs(Len(e.free)) : res[ks] = "ok"})
-  IN /\ PrintT(<<"STAT", l, nok, Cardinality(bad), Cardinality(AllKs(Len(e.free))) - nok - Cardinality(bad)>>)
+  \* (a set of pairs is enumerated once; a function [ks |-> Judged] would be re-evaluated at every application)
+  LET res == {<<ks, Judged(e, ks)>> : ks \in KsFor(e)}
+      bad == {p \in res : p[2] = "bad"}
+      nok == Cardinality({p \in res : p[2] = "ok"})
+  IN /\ PrintT(<<"STAT", l, nok, Cardinality(bad), Cardinality({p \in res : p[2] = "skip-in"}), Cardinality({p \in res : p[2] = "skip-out"})>>)
      /\ (\A i \in 1..Len(e.v8) : V8Agrees(e, e.v8[i])) \/ Reject(l, "SPECBUG")
-     /\ bad = {} \/ (PrintT(<<"WITNESS", l, CHOOSE ks \in bad : TRUE>>) /\ Reject(l, "ObsEq under the TLA+ semantics"))
+     /\ bad = {} \/ (PrintT(<<"WITNESS", l, (CHOOSE p \in bad : TRUE)[1]>>) /\ Reject(l, "ObsEq under the TLA+ semantics"))
 Conforms == l <= N => LineOK(Trace[l])
 =============================================================================
